@@ -293,6 +293,10 @@ func C07(r *ev.Report) {
 func init() {
 	Parts["C07"] = Part{"C07", C07}
 	Replayers["C07"] = func(c Case) (bool, string) {
+		if c["op"] == "persist" {
+			return Replayers["C10"](c)
+		}
+
 		var key, detail string
 
 		switch c["op"] {
